@@ -1,0 +1,158 @@
+//! Read-only verification hooks. Only compiled with the cargo feature `verif`.
+//!
+//! The hooks expose the compiled automata a [crate::Scanner] really uses for scanning and allow to
+//! record the automata handed to and returned by the minimizer. They never change the behaviour of
+//! the crate.
+
+use std::cell::RefCell;
+
+use crate::internal::compiled_dfa::CompiledDfa;
+use crate::internal::CharClassID;
+use crate::Scanner;
+
+/// A plain copy of a compiled automaton.
+#[derive(Debug, Clone, PartialEq, Eq, Default)]
+pub struct AutomatonDump {
+    /// The number of states. The start state is state 0.
+    pub states: usize,
+    /// The transitions as (source state, character class id, target state).
+    pub transitions: Vec<(usize, usize, usize)>,
+    /// Per state: the token type the state accepts, if it is an accepting state.
+    pub accepting: Vec<Option<usize>>,
+    /// The token types of the automaton in priority order.
+    pub token_types: Vec<usize>,
+    /// The lookaheads of the automaton, sorted by token type.
+    pub lookaheads: Vec<LookaheadDump>,
+}
+
+/// A plain copy of a compiled lookahead.
+#[derive(Debug, Clone, PartialEq, Eq)]
+pub struct LookaheadDump {
+    /// The token type of the pattern the lookahead belongs to.
+    pub token_type: usize,
+    /// The polarity of the lookahead.
+    pub is_positive: bool,
+    /// The automaton of the lookahead.
+    pub automaton: AutomatonDump,
+}
+
+/// A plain copy of a compiled scanner mode.
+#[derive(Debug, Clone, PartialEq, Eq)]
+pub struct ModeDump {
+    /// The name of the mode.
+    pub name: String,
+    /// The automaton of the mode.
+    pub automaton: AutomatonDump,
+    /// The transitions of the mode as (token type, target mode).
+    pub transitions: Vec<(usize, usize)>,
+}
+
+impl AutomatonDump {
+    pub(crate) fn from_dfa(dfa: &CompiledDfa) -> Self {
+        let mut transitions = Vec::new();
+        for (from, state) in dfa.states.iter().enumerate() {
+            for (cc, to) in state.transitions.iter() {
+                transitions.push((from, cc.as_usize(), to.as_usize()));
+            }
+        }
+        let accepting = dfa
+            .end_states
+            .iter()
+            .map(|(accepting, terminal_id)| {
+                if *accepting {
+                    Some(terminal_id.as_usize())
+                } else {
+                    None
+                }
+            })
+            .collect();
+        let mut lookaheads = dfa
+            .lookaheads
+            .iter()
+            .map(|(terminal_id, lookahead)| LookaheadDump {
+                token_type: terminal_id.as_usize(),
+                is_positive: lookahead.is_positive,
+                automaton: AutomatonDump::from_dfa(&lookahead.nfa),
+            })
+            .collect::<Vec<_>>();
+        lookaheads.sort_by_key(|l| l.token_type);
+        AutomatonDump {
+            states: dfa.states.len(),
+            transitions,
+            accepting,
+            token_types: dfa.terminal_ids.iter().map(|t| t.as_usize()).collect(),
+            lookaheads,
+        }
+    }
+}
+
+impl Scanner {
+    /// Returns a copy of the compiled automata of all modes of this scanner.
+    pub fn verif_dump(&self) -> Vec<ModeDump> {
+        self.inner
+            .scanner_modes
+            .iter()
+            .map(|mode| ModeDump {
+                name: mode.name.clone(),
+                automaton: AutomatonDump::from_dfa(&mode.dfa),
+                transitions: mode
+                    .transitions
+                    .iter()
+                    .map(|(t, m)| (t.as_usize(), m.as_usize()))
+                    .collect(),
+            })
+            .collect()
+    }
+
+    /// Returns the number of character classes registered in this scanner.
+    pub fn verif_class_count(&self) -> usize {
+        self.inner.character_classes.len()
+    }
+
+    /// Evaluates the scanner's own predicate of the character class `class_id` on `c`.
+    /// Returns `None` if the class id is not a registered one.
+    pub fn verif_class_matches(&self, class_id: usize, c: char) -> Option<bool> {
+        if class_id < self.inner.character_classes.len() {
+            Some((self.inner.match_char_class)(
+                CharClassID::new(class_id as u32),
+                c,
+            ))
+        } else {
+            None
+        }
+    }
+}
+
+thread_local! {
+    static RECORDING: RefCell<bool> = const { RefCell::new(false) };
+    static PENDING: RefCell<Vec<AutomatonDump>> = const { RefCell::new(Vec::new()) };
+    static LOG: RefCell<Vec<(AutomatonDump, AutomatonDump)>> = const { RefCell::new(Vec::new()) };
+}
+
+/// Switches the recording of minimizer calls on the current thread on or off.
+/// Switching clears everything recorded so far on this thread.
+pub fn record_minimizer(on: bool) {
+    RECORDING.with(|r| *r.borrow_mut() = on);
+    PENDING.with(|p| p.borrow_mut().clear());
+    LOG.with(|l| l.borrow_mut().clear());
+}
+
+/// Takes the (automaton before, automaton after) pairs of all minimizer calls recorded on the
+/// current thread since the last call.
+pub fn take_minimizer_log() -> Vec<(AutomatonDump, AutomatonDump)> {
+    LOG.with(|l| std::mem::take(&mut *l.borrow_mut()))
+}
+
+pub(crate) fn record_before(dfa: &CompiledDfa) {
+    if RECORDING.with(|r| *r.borrow()) {
+        PENDING.with(|p| p.borrow_mut().push(AutomatonDump::from_dfa(dfa)));
+    }
+}
+
+pub(crate) fn record_after(dfa: &CompiledDfa) {
+    if RECORDING.with(|r| *r.borrow()) {
+        if let Some(before) = PENDING.with(|p| p.borrow_mut().pop()) {
+            LOG.with(|l| l.borrow_mut().push((before, AutomatonDump::from_dfa(dfa))));
+        }
+    }
+}
